@@ -131,3 +131,13 @@ for _n in (17, 18, 19):
     _s['parallel_configs'] = _s.get('parallel_configs', 1) + 1
     _s['technique'] = _s.get('technique', '') + '; the byte-oriented routines inlined (LTO, -O3, strict aliasing) into callers that wrote the data through typed lvalues'
     _s['require'] = list(_s.get('require', [])) + [{17: 'lto-crc-hash-on-typed-objects', 18: 'lto-utf-on-typed-objects', 19: 'lto-accessors-on-typed-objects'}[_n]]
+
+# ... and the trees (seeded change C01-K): harness/h_lto_tree.c, one call site per routine, root.node read through its own type right before and after each call
+for _n, _fl in ((1, []), (2, ['-DVF_TREE_RBT'])):
+    _s = PROPS['C%02d' % _n]
+    _b = _s['configs']
+    _s['configs'] = (lambda b, fl: lambda tier: b(tier) + [dict(name='lto', harness=['h_lto_tree.c'], hflags=fl, flavour='lto', libdrop=['-fno-strict-aliasing'],
+                                                                hdrop=['-fno-strict-aliasing'], nworkers=2)])(_b, _fl)
+    _s['parallel_configs'] = _s.get('parallel_configs', 1) + 1
+    _s['technique'] = _s.get('technique', '') + '; insert / remove / search inlined (LTO, -O3, strict aliasing) into a client that reads root.node right before and after each call'
+    _s['require'] = list(_s.get('require', [])) + ['lto-root-read-right-after-inlined-call', 'lto-root-changed-by-call']
